@@ -42,7 +42,7 @@ VALUES = [None, True, 1, 1.0, "1", [], {}, [1], [True], {"a": 1}, {"a": True}, "
 
 
 def plan(tier, seed):
-    specs = [{"kind": "flags"}] + [{"kind": "single", "doc": i, "ops": ops} for i in range(len(DOCS)) for ops in (["add", "replace", "test", "remove"], ["move"], ["copy"])]
+    specs = [{"kind": "flags"}, {"kind": "test-equality"}] + [{"kind": "single", "doc": i, "ops": ops} for i in range(len(DOCS)) for ops in (["add", "replace", "test", "remove"], ["move"], ["copy"])]
     for _ in range(6 if tier == "quick" else 20):
         specs.append({"kind": "sequences", "n": 2500 if tier == "quick" else 60000})
     return specs
@@ -199,6 +199,21 @@ def run(spec, ctx):
         from rt import flag_history
 
         flag_history.run(ctx)
+        return
+    if spec["kind"] == "test-equality":
+        # `test` on pairs of numbers that are close but different, or equal across int/float; bare and nested; then a guarded replace
+        from rt.gen import NEAR_NUMBERS
+
+        n = 0
+        for x in NEAR_NUMBERS + [True, False, 0, "1"]:
+            for y in NEAR_NUMBERS + [True, False, 0, "1"]:
+                doc = {"n": x, "arr": [x, [x]], "o": {"k": [{"z": x}]}}
+                for ops in ([{"op": "test", "path": "/n", "value": y}], [{"op": "test", "path": "/arr", "value": [y, [y]]}], [{"op": "test", "path": "/o", "value": {"k": [{"z": y}]}}],
+                            [{"op": "test", "path": "/arr/1/0", "value": y}, {"op": "replace", "path": "/n", "value": "guarded"}]):
+                    check(ctx, doc, ops, "test-equality")
+                    n += 1
+        ctx.bulk(n)
+        ctx.count("test_equality_pairs", n)
         return
     if spec["kind"] == "single":
         doc = DOCS[spec["doc"]]
